@@ -24,14 +24,14 @@ type boundedEntry struct {
 }
 
 type boundedResult struct {
-	ID        string            `json:"id"`
-	What      string            `json:"what"`
-	Bound     map[string]string `json:"bound"`
-	Status    string            `json:"status"` // ok | violated | error
-	Cases     int               `json:"cases"`
-	Seconds   float64           `json:"seconds"`
-	Detail    string            `json:"detail,omitempty"`
-	Exhaustive bool             `json:"exhaustive_for_bound"`
+	ID         string            `json:"id"`
+	What       string            `json:"what"`
+	Bound      map[string]string `json:"bound"`
+	Status     string            `json:"status"` // ok | violated | error
+	Cases      int               `json:"cases"`
+	Seconds    float64           `json:"seconds"`
+	Detail     string            `json:"detail,omitempty"`
+	Exhaustive bool              `json:"exhaustive_for_bound"`
 }
 
 func loadBounded() []boundedEntry {
